@@ -601,16 +601,23 @@ def cli_tables():
         if isinstance(n, ast.FunctionDef) and n.name.startswith("handle_") and n.name.endswith("_command"):
             tries = []
             reads = sorted({a.attr for a in walk(n) if isinstance(a, ast.Attribute) and isinstance(a.value, ast.Name) and a.value.id == "args"})
-            def top_tries(stmts):
-                """the `try` statements of a handler, in order, also those that stand inside an `if` / `else` / `with`"""
+            def top_tries(stmts, seen=()):
+                """the `try` statements of a handler, in order, also those that stand inside an `if` / `else` / `with`, and
+                those of the module-level helper functions a plain statement calls (a read moved into `_read_expression(args)`
+                is guarded as surely as inline)"""
                 for st in stmts:
                     if isinstance(st, ast.Try):
                         yield st
                     elif isinstance(st, ast.If):
-                        yield from top_tries(st.body)
-                        yield from top_tries(st.orelse)
+                        yield from top_tries(st.body, seen)
+                        yield from top_tries(st.orelse, seen)
                     elif isinstance(st, ast.With):
-                        yield from top_tries(st.body)
+                        yield from top_tries(st.body, seen)
+                    else:
+                        for x in ast.walk(st):
+                            if isinstance(x, ast.Call) and isinstance(x.func, ast.Name) and x.func.id in helpers and x.func.id not in seen \
+                                    and not x.func.id.startswith("handle_"):
+                                yield from top_tries(helpers[x.func.id].body, seen + (x.func.id,))
             for s in top_tries(n.body):
                 if isinstance(s, ast.Try):
                     hs = []
